@@ -119,7 +119,7 @@ int main(int argc, char** argv)
         o.obs = [](ps::Sim& sim, const ps::Snap& s) { return C28::PoolObs(sim, s); };
         o.script_coins = 4;
         o.base_blocks = 124;
-        o.classes = {"N", "C", "R", "RS", "D", "W", "NX", "M", "P", "T"};
+        o.classes = {"N", "C", "R", "RS", "RD", "D", "W", "NX", "M", "P", "T"};
         o.guarded = true;
         o.prefill = 1;            // a non-empty pool in the root state: T / C / R / S are enabled from the start
         o.fees = "lh";
